@@ -190,6 +190,26 @@ class Iter:
         return ElemRef(self.seq, i)
 
 
+class WholeRange:
+    """begin() / end() of a modelled container without positional storage (sparse tables): only
+    whole-range algorithms are supported on it"""
+
+    def __init__(self, obj, end):
+        self.obj = obj
+        self.end = end
+
+    def __deepcopy__(self, memo):
+        return self
+
+
+class BackInserter:
+    def __init__(self, seq):
+        self.seq = seq
+
+    def __deepcopy__(self, memo):
+        return self
+
+
 class OutOfRange(AnalysisBroken):
     """the interpreted code indexes a modelled std container outside its size: undefined behaviour of
     the code under analysis; rules that run concrete-shape scenarios report it as a violation"""
@@ -826,6 +846,10 @@ class Interp:
 
     def arith(self, op, a, b):
         a, b = self.rv(a), self.rv(b)
+        if isinstance(a, Iter) and isinstance(b, int) and not isinstance(b, bool) and op in ("+", "-"):
+            return Iter(a.seq, a.pos + (b if op == "+" else -b) * a.step, a.step)
+        if isinstance(a, Iter) and isinstance(b, Iter) and op == "-" and a.seq is b.seq and a.step == b.step:
+            return (a.pos - b.pos) * a.step
         if isinstance(a, Interval) or isinstance(b, Interval):
             return interval_binop(op, a, b)
         if isinstance(a, Poly) or isinstance(b, Poly):
@@ -1160,6 +1184,78 @@ class Interp:
             if isinstance(a, (int, float)):
                 return math.sqrt(a)
             return self.world.sym_unop("sqrt", a)
+        if bn in ("std::for_each", "std::all_of", "std::any_of", "std::none_of", "std::count_if", "std::find_if",
+                  "std::copy_if", "std::transform", "std::copy_n", "std::for_each_n") and len(args_n) >= 3:
+            a = V(0)
+            if isinstance(a, Iter) and a.step == 1:
+                if bn in ("std::copy_n", "std::for_each_n"):
+                    cnt = V(1)
+                    if not isinstance(cnt, int) or a.pos + cnt > len(a.seq):
+                        raise OutOfRange("interp: %s reads %r elements past the end at %s" % (bn, cnt, fr.fn.loc(e)))
+                    rng = list(range(a.pos, a.pos + cnt))
+                    rest = 2
+                else:
+                    b = V(1)
+                    if not (isinstance(b, Iter) and b.seq is a.seq):
+                        raise AnalysisBroken("interp: %s over an unmodelled range at %s" % (bn, fr.fn.loc(e)))
+                    rng = list(range(a.pos, b.pos))
+                    rest = 2
+
+                def call(f_, x):
+                    if isinstance(f_, Closure):
+                        return self.call_closure(f_, [x], e)
+                    raise AnalysisBroken("interp: %s with the callable %r" % (bn, f_))
+                if bn in ("std::for_each", "std::for_each_n"):
+                    f_ = V(rest)
+                    for i in rng:
+                        call(f_, ElemRef(a.seq, i))
+                    return f_
+                if bn in ("std::all_of", "std::any_of", "std::none_of", "std::count_if", "std::find_if"):
+                    f_ = V(rest)
+                    hits = []
+                    for i in rng:
+                        if self.truth(call(f_, ElemRef(a.seq, i))):
+                            hits.append(i)
+                            if bn in ("std::any_of", "std::none_of", "std::find_if"):
+                                break
+                        elif bn == "std::all_of":
+                            return False
+                    if bn == "std::all_of":
+                        return True
+                    if bn == "std::any_of":
+                        return bool(hits)
+                    if bn == "std::none_of":
+                        return not hits
+                    if bn == "std::count_if":
+                        return len(hits)
+                    return Iter(a.seq, hits[0] if hits else rng[-1] + 1 if rng else a.pos, 1)
+                # algorithms with an output
+                out = V(rest)
+                f_ = V(rest + 1) if len(args_n) > rest + 1 else None
+                vals_ = []
+                for i in rng:
+                    x = a.seq[i]
+                    if bn == "std::copy_if":
+                        if self.truth(call(f_, ElemRef(a.seq, i))):
+                            vals_.append(copy.deepcopy(x))
+                    elif bn == "std::transform":
+                        vals_.append(copy.deepcopy(self.rv(call(f_, ElemRef(a.seq, i)))))
+                    else:
+                        vals_.append(copy.deepcopy(x))
+                if isinstance(out, BackInserter):
+                    out.seq.extend(vals_)
+                    return out
+                if isinstance(out, Iter) and out.step == 1:
+                    if out.pos + len(vals_) > len(out.seq):
+                        raise OutOfRange("interp: %s writes %d elements past the end of the destination at %s"
+                                         % (bn, out.pos + len(vals_) - len(out.seq), fr.fn.loc(e)))
+                    for k, v_ in enumerate(vals_):
+                        out.seq[out.pos + k] = v_
+                    return Iter(out.seq, out.pos + len(vals_), 1)
+        if bn == "std::back_inserter" and len(args_n) == 1:
+            c_ = V(0)
+            if isinstance(c_, list):
+                return BackInserter(c_)
         if bn == "std::iota" and len(args_n) == 3:
             a, b, v0 = V(0), V(1), V(2)
             if isinstance(a, Iter) and isinstance(b, Iter) and a.seq is b.seq:
@@ -1168,6 +1264,9 @@ class Interp:
                 return None
         if bn == "std::fill" and len(args_n) == 3:
             a, b, v0 = V(0), V(1), V(2)
+            if isinstance(a, WholeRange) and isinstance(b, WholeRange) and a.obj is b.obj and a.end is False and b.end:
+                a.obj.fill_all(copy.deepcopy(v0))
+                return None
             if isinstance(a, Iter) and isinstance(b, Iter) and a.seq is b.seq:
                 for i in range(a.pos, b.pos):
                     a.seq[i] = copy.deepcopy(v0)
@@ -1269,7 +1368,13 @@ class Interp:
                 if len(args_n) == 1:
                     c.append(copy.deepcopy(V(0)))
                 else:
-                    raise AnalysisBroken("interp: emplace_back with %d args" % len(args_n))
+                    # emplace_back(a, b, ...): in-place construction of the element type
+                    ts_c = fr.fn.type(strip(e["obj"]).get("t")).replace("const ", "")
+                    vals_ = [copy.deepcopy(V(i)) for i in range(len(args_n))]
+                    if "std::tuple<" in ts_c or "std::pair<" in ts_c:
+                        c.append(tuple(vals_))
+                    else:
+                        raise AnalysisBroken("interp: emplace_back with %d args into %s" % (len(args_n), ts_c[:60]))
                 return None
             if name == "size":
                 return len(c)
@@ -1408,6 +1513,17 @@ class Interp:
                         if kv[0] not in c:
                             c[kv[0]] = kv[1]
                         return None
+        if e.get("obj") is not None and name in ("begin", "end", "cbegin", "cend") and \
+                ((cls or "").startswith("xt::") or (cls or "") in ("std::unordered_set", "std::set")):
+            o_ = self.rv(OBJ())
+            if isinstance(o_, PyVec):
+                return Iter(o_, 0 if name in ("begin", "cbegin") else len(o_), 1)
+            if hasattr(o_, "fill_all"):
+                return WholeRange(o_, name in ("end", "cend"))
+        if e.get("obj") is not None and name == "size" and (cls or "").startswith("xt::"):
+            o_ = self.rv(OBJ())
+            if isinstance(o_, PyVec):
+                return len(o_)
         if cls in ("std::shared_ptr", "std::__shared_ptr", "std::unique_ptr", "std::__shared_ptr_access"):
             obj = OBJ()
             if name in ("operator->", "operator*", "get"):
@@ -1487,7 +1603,12 @@ class Interp:
                     pass
             return
         if k == "do":
+            n_iter = 0
             while True:
+                n_iter += 1
+                bound = getattr(self.world, "loop_bound", None)
+                if bound is not None and n_iter > bound:
+                    raise LoopBound(fr.fn.loc(s))
                 try:
                     self.exec(s.get("body"), fr)
                 except BreakEx:
